@@ -77,7 +77,7 @@ fn linux_reflink_body() {
     reflink_post(ok);
 }
 ghost_fs_unit!(wrappers, c05_linux_reflink, [(reflink_overwrite, stub_reflink_overwrite)], { linux_reflink_body() });
-ghost_fs_unit!(std, c05_linux_reflink_std, [(reflink_overwrite, stub_reflink_overwrite)], { linux_reflink_body() });
+ghost_fs_unit!(std_const, c05_linux_reflink_std, [(reflink_overwrite, stub_reflink_overwrite)], { linux_reflink_body() });
 
 fn reflink_cmd_harness(faults: bool, refusable: bool) -> (bool, Option<u64>, u64) {
     let (should_lock, len) = g::init(g::INV_REFLINK, faults, refusable);
@@ -101,7 +101,7 @@ fn execute_reflink_body() {
 }
 ghost_fs_unit!(wrappers, c05_execute_reflink,
     [(reflink_overwrite, stub_reflink_overwrite), (restore_metadata, stub_restore_metadata)], { execute_reflink_body() });
-ghost_fs_unit!(std, c05_execute_reflink_std,
+ghost_fs_unit!(std_const, c05_execute_reflink_std,
     [(reflink_overwrite, stub_reflink_overwrite), (restore_metadata, stub_restore_metadata)], { execute_reflink_body() });
 ghost_fs_unit!(wrappers, c20_lock_first_reflink,
     [(reflink_overwrite, stub_reflink_overwrite), (restore_metadata, stub_restore_metadata)], {
